@@ -65,6 +65,7 @@ type input struct {
 	N     int    `json:"n"`     // number of nodes
 	PNil  int    `json:"pnil"`  // probability (in eighths) that a reference is nil
 	Mode  int    `json:"mode"`  // 0: VerifDeepCopy   1: dials.Config + View
+	Root  int    `json:"root"`  // mode 0 only - what is handed to the copier: 0 the pointer, 1 the node's map, 2 its slice, 3 the struct value
 	Style int    `json:"style"` // 0: self / back / anywhere; 1: no self references; 2: mostly the next node (long chains and cycles)
 }
 
@@ -417,16 +418,35 @@ type outcome struct {
 	Direct []string `json:"direct"`
 }
 
-func buildRoot(in input) reflect.Value {
+// buildRoot returns the value handed to the implementation and the node type.
+func buildRoot(in input) (reflect.Value, reflect.Type) {
 	g := &gen{r: coqfmt.NewRng(in.State), pnil: in.PNil, style: in.Style}
+	var p reflect.Value
+	var m, sl reflect.Value
 	switch in.Fam {
 	case "SN":
-		return reflect.ValueOf(buildSN(g, in.N)[0])
+		n := buildSN(g, in.N)[0]
+		p, m, sl = reflect.ValueOf(n), reflect.ValueOf(n.M), reflect.ValueOf(n.Kids)
 	case "IN":
-		return reflect.ValueOf(buildIN(g, in.N)[0])
+		n := buildIN(g, in.N)[0]
+		p, m, sl = reflect.ValueOf(n), reflect.ValueOf(n.MA), reflect.ValueOf(n.Anys)
 	default:
-		return reflect.ValueOf(buildPN(g, in.N)[0])
+		p = reflect.ValueOf(buildPN(g, in.N)[0])
 	}
+	nt := p.Type().Elem()
+	if in.Mode == 0 {
+		switch {
+		case in.Root == 1 && m.IsValid() && !m.IsNil():
+			return m, nt
+		case in.Root == 2 && sl.IsValid() && !sl.IsNil():
+			return sl, nt
+		case in.Root == 3:
+			// the struct BY VALUE (a shallow, non-addressable copy: pointers in the graph
+			// that refer to the node itself refer to the original, not to this value)
+			return reflect.ValueOf(p.Elem().Interface()), nt
+		}
+	}
+	return p, nt
 }
 
 func runImpl(in input, root reflect.Value) (reflect.Value, error) {
@@ -470,7 +490,7 @@ func child() {
 		if e := json.Unmarshal([]byte(line), &in); e != nil {
 			panic(e)
 		}
-		root := buildRoot(in)
+		root, nodeType := buildRoot(in)
 		before := graphwalk.Canon(root)
 		w := graphwalk.New()
 		w.Scan(root)
@@ -479,7 +499,7 @@ func child() {
 		nIn := w.Next()
 		sh := &shape{indeg: map[[2]uintptr]int{}, onStack: map[[2]uintptr]bool{}, slices: map[uintptr]int{}}
 		sh.walk(root, false, [2]uintptr{9, 0})
-		tags := []string{"fam-" + in.Fam, fmt.Sprintf("mode-%d", in.Mode)}
+		tags := []string{"fam-" + in.Fam, fmt.Sprintf("mode-%d", in.Mode), "root-" + root.Kind().String()}
 		for name, b := range map[string]bool{"self-loop": sh.selfLoop, "cycle": sh.cycle, "iface-backref": sh.ifaceBack,
 			"shared-map": sh.sharedMap, "diamond": sh.shared > 0, "shared-via-iface": sh.sharedViaIface > 0,
 			"shared-array": sh.sliceShare > 0, "long-cycle": sh.cycle && !sh.selfLoop} {
@@ -495,7 +515,7 @@ func child() {
 		default:
 			tags = append(tags, "nodes-9+")
 		}
-		tg, troot := typeGraph(root.Type().Elem())
+		tg, troot := typeGraph(nodeType)
 		a := announce{Heap: w.Objs(0), NIn: nIn, Root: rootTerm, TG: tg, TRoot: troot, Tags: tags,
 			Nontrivial: sh.cycle || sh.shared > 0}
 		b, _ := json.Marshal(a)
@@ -666,7 +686,8 @@ func genInputs(r *coqfmt.Rng, n int, tier string) []json.RawMessage {
 		} else if r.Chance(1, 2) {
 			nn = maxN - r.Intn(maxN/2+1)
 		}
-		add(input{K: "gen", State: r.U64(), Fam: fam, N: nn, PNil: []int{1, 1, 2, 3, 5, 7}[r.Intn(6)], Mode: mode, Style: r.Intn(3)})
+		add(input{K: "gen", State: r.U64(), Fam: fam, N: nn, PNil: []int{1, 1, 2, 3, 5, 7}[r.Intn(6)], Mode: mode, Style: r.Intn(3),
+			Root: []int{0, 0, 0, 1, 2, 3}[r.Intn(6)]})
 	}
 	return out
 }
@@ -686,7 +707,7 @@ func main() {
 		Rule: "random object graphs over the node types SN{Kids []*SN; M map[string]*SN; Arr [2]*SN; Ch chan int; priv int}, " +
 			"IN{Any interface{}; Anys []interface{}; MA map[string]interface{}} (payloads: *IN, typed nil pointers, *SN, shared maps, slices, struct and array values) " +
 			"and PN{Next, Other *PN}; nil-probability of a reference swept over {1,2,3,5,7}/8, three target styles (self/back/anywhere, no self references, mostly the next node); shared maps, " +
-			"shared and offset slices; each graph goes through VerifDeepCopy or through dials.Config(ctx,&root)+View in a child process; " +
+			"shared and offset slices; each graph goes through VerifDeepCopy (root handed over as pointer, map, slice or struct value) or through dials.Config(ctx,&root)+View in a child process; " +
 			"non-trivial: the graph below the root has a cycle or a pointer/map referenced at least twice; distinct = distinct PRNG case states",
 		Gen: genInputs, Run: run,
 	})
